@@ -26,7 +26,7 @@ def rot_dim(d):
     return 3 if d == 3 else 1
 
 
-def discretize(g, mu, lam, bc, twice=False):
+def discretize(g, mu, lam, bc, twice=False, disc=None):
     """Run the real Tpsa.discretize; ``twice`` repeats it on the same discretization object,
     grid and data dictionary (the matrices of the second call are returned)."""
     import porepy as pp
@@ -34,7 +34,8 @@ def discretize(g, mu, lam, bc, twice=False):
     nc = g.num_cells
     stiff = pp.FourthOrderTensor(mu * np.ones(nc), lam * np.ones(nc))
     data = {pp.PARAMETERS: {KW: {"fourth_order_tensor": stiff, "bc": bc}}, pp.DISCRETIZATION_MATRICES: {KW: {}}}
-    disc = pp.Tpsa(KW)
+    if disc is None:  # a caller may pass ONE Tpsa object that it reuses for several grids
+        disc = pp.Tpsa(KW)
     disc.discretize(g, data)
     if twice:
         stiff0 = stiff.values.copy()
